@@ -74,3 +74,49 @@ func H_C10_gr4j_closure_x4_3p5() { c10gr4j(3.5, true) }
 // H_C10_gr4j_x4_4: bounds and budget for x4 = 4.
 //vsym:prop=C10 tier=thorough ints=int floats=real timeout=300
 func H_C10_gr4j_x4_4() { c10gr4j(4, false) }
+
+// c10gr4jHunt: the same one-day obligations as c10gr4j, but as counterexample searches (z3 does
+// not decide them in the time limit): 30 s solver search, then native evaluation at ~300
+// pseudo-random points inside the stated ranges.  Can only produce violations.
+func c10gr4jHunt(x4 float64) {
+	n1, n2 := int(math.Ceil(x4)), int(math.Ceil(2*x4))
+	P := c10in("rain", 0, 200)
+	x1, x3 := c10in("x1", 1, 1500), c10in("x3", 1, 500)
+	S, R := c10in("S", 0, 1500), c10in("R", 0, 500)
+	vsym.Assume(S <= x1)
+	q9, q1 := make([]float64, n1), make([]float64, n2)
+	sum0 := S + R
+	for i := range q9 {
+		q9[i] = c10in("q9", 0, 50)
+		sum0 += q9[i]
+	}
+	for i := range q1 {
+		q1[i] = c10in("q1", 0, 50)
+		sum0 += q1[i]
+	}
+	out := rrOut(2)
+	rain := rrOut(2)
+	rain.Set1(0, P)
+	// two days, zero exchange, zero PET: the second day has no rain
+	S2, R2, _, _, q1o, q9o := gr4j(rain, rrOut(2), S, R, n1, n2, q1, q9, x1, 0, x3, x4, out)
+	vsym.Reach("stepped")
+	sum1 := S2 + R2
+	for i := 0; i < n1; i++ {
+		sum1 += q9o[i]
+	}
+	for i := 0; i < n2; i++ {
+		sum1 += q1o[i]
+	}
+	vsym.Hunt(out.Get1(0) >= 0 && out.Get1(1) >= 0, "runoff-nonnegative")
+	vsym.Hunt(S2 >= 0 && S2 <= x1 && R2 >= 0, "stores-within-bounds")
+	vsym.HuntNear(P, out.Get1(0)+out.Get1(1)+(sum1-sum0), 1e-6, 1e-9, "balance-closes-exactly-without-exchange-and-pet")
+}
+
+// H_C10_gr4j_hunt_x4_0p75: two days of GR4J (x2 = 0, PET = 0, rain on day one) for x4 = 0.75
+// (single-ordinate UH1): non-negativity, store bounds and exact closure as counterexample searches.
+//vsym:prop=C10 tier=quick ints=int floats=real timeout=30
+func H_C10_gr4j_hunt_x4_0p75() { c10gr4jHunt(0.75) }
+
+// H_C10_gr4j_hunt_x4_2p5: same for x4 = 2.5.
+//vsym:prop=C10 tier=quick ints=int floats=real timeout=30
+func H_C10_gr4j_hunt_x4_2p5() { c10gr4jHunt(2.5) }
